@@ -607,3 +607,13 @@ package core
 //@   modifies ghost.rpos[*], ghost.rfailed[*], ghost.dict_has[*], ghost.dict_int[*]
 //@   loop 1 invariant 0 <= i && len(results) == n && len(returnType) == n && count >= 0 && decoder != nil && decoder.reader == nil && 0 <= decoder.head && decoder.head <= decoder.tail && decoder.tail <= len(decoder.buf)
 //@   loop 2 invariant 0 <= i && len(results) == n && len(returnType) == n
+
+// publishing one function under several namespaces: one alias per namespace, each built from
+// the function's OWN name (ns_name, or the bare name for the root namespace)
+//@ func (*methodManager).addFunction
+//@   prop C08
+//@   havoc
+//@   requires mm != nil
+//@   modifies ghost.*
+//@   loop 1 invariant [one_alias_per_namespace_so_far] len(alias) == rangeidx()
+//@   loop 1 invariant [every_alias_is_built_from_the_functions_own_name] name == old(name)
